@@ -1253,8 +1253,33 @@ pub(crate) fn m_element_dispatch() {
     assert!(checked > 0, "atom {:#x} names no element of the table", atom);
 }
 
+/// Unicode strikeout only adds U+0336 marks: with the marks removed the output equals the output without the option.
+pub(crate) fn m_strike_layout() {
+    let _which: u8 = kani::any();
+    let docs: [&str; 7] = [
+        "<p>x <s>ab cd</s> y</p>",
+        "<s><div>a</div>  <div>b</div></s>",
+        "<s>a <div>b</div> c</s>",
+        "<del><p>one two</p> <p>three</p></del>",
+        "<p><s>aaa bbb ccc ddd</s></p>",
+        "<s><ul><li>a b</li> <li>c</li></ul></s>",
+        "<p><s>a&nbsp;b\tc</s></p>",
+    ];
+    for html in docs.iter() {
+        for width in [3usize, 5, 8, 20] {
+            let on = crate::config::plain().unicode_strikeout(true).string_from_read(html.as_bytes(), width);
+            let off = crate::config::plain().unicode_strikeout(false).string_from_read(html.as_bytes(), width);
+            match (on, off) {
+                (Ok(on), Ok(off)) => assert!(on.replace('\u{336}', "") == off, "{} at width {}: strikeout changes the layout: {:?} vs {:?}", html, width, on, off),
+                (Err(_), Err(_)) => (),
+                _ => panic!("{} at width {}: strikeout changes whether the document renders", html, width),
+            }
+        }
+    }
+}
+
 crate::verif_common::registry! {
-    m_element_dispatch, m_link_min_width, m_table_sections, m_table_caption, m_inline_tags, m_colspan_huge, m_frag_in_word, m_ol_prefix_width, m_dom_reuse, m_columns, m_prefix_blank_lines, m_shallow_empty, m_link_footnotes, m_strike_affix, m_frag_nested, m_dom_children, m_cell_unwind, m_routes_width, m_insert_child, m_ol_numbering, m_prefix_width, m_into_cells, m_table_col_width, m_table_alloc,
+    m_strike_layout, m_element_dispatch, m_link_min_width, m_table_sections, m_table_caption, m_inline_tags, m_colspan_huge, m_frag_in_word, m_ol_prefix_width, m_dom_reuse, m_columns, m_prefix_blank_lines, m_shallow_empty, m_link_footnotes, m_strike_affix, m_frag_nested, m_dom_children, m_cell_unwind, m_routes_width, m_insert_child, m_ol_numbering, m_prefix_width, m_into_cells, m_table_col_width, m_table_alloc,
     r1_cascade_pairs, r1_cascade_triples, r2_specificity_order, r2_specificity_add,
     r3_ol_prefix_total, r4_ol_prefix_is_max,
     r9_tree_map_reduce_order, r12_config_plumbing, r12_width_zero,
